@@ -60,7 +60,7 @@ def required(tier):
             "breaks_checked": 3000, "fits_checked": 150, "fits_with_fixed_sites": 50, "fits_all_fixed": 3, "fits_none_fixed": 20,
             "fixed_columns_checked": 100, "sampled_columns_checked": 100,
             "prog_fits_checked": 100, "prog_fits_with_fixed_sites": 20, "prog_fits_with_variable_sites": 20, "prog_fixed_columns_checked": 40,
-            "prog_datasets_with_per_sample_files": 4}
+            "prog_datasets_with_per_sample_files": 4, "fix_decisions_posterior_equals_threshold_exactly": 40}
 
 
 # ---------------------------------------------------------------------------
@@ -234,17 +234,25 @@ def run_breaks(tier, seed, spec, col):
 # 4: homozygous fixing
 
 
-def single_snv_hom_post(reads_col, counts, n_alleles, ploidy, F):
+def single_snv_hom_post(reads_col, counts, n_alleles, ploidy, F, with_saturation=False):
     haps = np.arange(n_alleles, dtype=int).reshape(n_alleles, 1)
     r = reads_col[:, None, :]
     if len(r) == 0:
         r = np.full((1, 1, reads_col.shape[-1]), np.nan)
         counts = None
-    gs, post, _, _ = M.exact_posterior(r, counts, haps, ploidy, F, None)
+    gs, post, llks, lprs = M.exact_posterior(r, counts, haps, ploidy, F, None)
     out = np.zeros(n_alleles)
     for g, p in zip(gs, post):
         if len(set(g)) == 1:
             out[g[0]] = p
+    if with_saturation:
+        # a homozygous genotype whose competitors together hold < 1e-25 of its mass has posterior exactly 1.0 in double
+        # arithmetic however the normalisation is ordered (each log1p(exp(d)) term is absorbed): it REACHES any threshold <= 1
+        lj = [a + b for a, b in zip(llks, lprs)]
+        top = max(range(len(gs)), key=lambda k: lj[k])
+        others = math.fsum(math.exp(lj[k] - lj[top]) for k in range(len(gs)) if k != top)
+        sat = top if (len(set(gs[top])) == 1 and others < 1e-25 and abs(lj[top]) > 1e-3) else None
+        return out, (None if sat is None else gs[sat][0])
     return out
 
 
@@ -262,6 +270,10 @@ def make_fix_case(rng):
     reads = gen.gen_reads_from_haps(rng, truth, n_reads, n_alleles, n_nucl=int(n_alleles.max()), gap_rate=float(rng.choice([0, 0.3])), err=0.0024, flip=0.0)
     counts = None if rng.random() < 0.3 else rng.integers(1, 6, size=n_reads).astype(np.int64)
     thr = float(rng.choice([0.6, 0.9, 0.99, 0.999, 1.0, 1.5])) if rng.random() < 0.7 else float(rng.uniform(0.51, 1.0))
+    if n_reads and rng.random() < 0.25:
+        # deep data: the homozygous posterior saturates to exactly 1.0, which REACHES a threshold of 1.0
+        counts = rng.integers(20, 60, size=n_reads).astype(np.int64)
+        thr = float(rng.choice([1.0, 1.0, 0.999]))
     F = float(rng.choice([0.0, 0.0, 0.1, 0.5]))
     return dict(ploidy=ploidy, n_alleles=n_alleles.tolist(), reads=reads.tolist(), reads_shape=list(reads.shape),
                 counts=None if counts is None else counts.tolist(), thr=thr, F=F, seed=int(rng.integers(1, 2**31 - 1)),
@@ -280,8 +292,14 @@ def check_fix(c, col):
     fixed_allele = {}
     ambiguous = False
     for j in range(n_base):
-        hp = single_snv_hom_post(reads[:, j, :], counts, int(n_alleles[j]), ploidy, F)
+        hp, sat = single_snv_hom_post(reads[:, j, :], counts, int(n_alleles[j]), ploidy, F, with_saturation=True)
         a = int(np.argmax(hp))
+        if sat is not None and thr <= 1.0:
+            col.count("fix_decisions_at_saturated_posterior")
+            if thr == 1.0:
+                col.count("fix_decisions_posterior_equals_threshold_exactly")
+            fixed_allele[j] = int(sat)
+            continue
         if abs(hp[a] - thr) <= 1e-9:
             ambiguous = True
         if hp[a] >= thr:
@@ -399,9 +417,12 @@ def run_prog(tier, seed, spec, col):
         root = env.workdir("c15-%s-%d" % (spec["name"], dI))
         shutil.rmtree(root, ignore_errors=True)
         n_s = int(rng.integers(2, 5))
-        ds = datasets.make_dataset(rng, root, n_samples=n_s, n_loci=int(rng.integers(2, 5)), ploidy=[2, 4, 6], depth=(0, 25), contig_len=700,
-                                   snv_range=(1, 7), hostile=0.05, err=0.01, multi_allelic=0.4)
+        deep = dI % 3 == 2
+        ds = datasets.make_dataset(rng, root, n_samples=n_s, n_loci=int(rng.integers(2, 5)), ploidy=[2] if deep else [2, 4, 6], depth=(150, 260) if deep else (0, 25), contig_len=700,
+                                   snv_range=(1, 7), hostile=0.05, err=0.0 if deep else 0.01, multi_allelic=0.4)
         thr = float(rng.choice([0.6, 0.9, 0.99, 0.999, 1.0])) if rng.random() < 0.7 else round(float(rng.uniform(0.51, 1.0)), 4)
+        if deep:
+            thr = 1.0   # deep diploid data: posteriors saturate to exactly 1.0 and must still count as reaching the threshold
         col.add_to_set("prog_thresholds", thr)
         per_sample = rng.random() < 0.6
         F = {smp: (float(rng.choice([0.0, 0.1, 0.3, 0.6])) if per_sample else 0.0) for smp in ds.samples}
@@ -507,8 +528,14 @@ def run_prog(tier, seed, spec, col):
                 counts = None if rec["counts"] is None else rec["counts"].astype(np.int64)
                 fixed_allele, ambiguous = {}, False
                 for j in range(n_base):
-                    hp = single_snv_hom_post(rd[:, j, :], counts if len(rd) else None, want_na[j], ds.ploidy[smp], F[smp])
+                    hp, sat = single_snv_hom_post(rd[:, j, :], counts if len(rd) else None, want_na[j], ds.ploidy[smp], F[smp], with_saturation=True)
                     a = int(np.argmax(hp))
+                    if sat is not None and thr <= 1.0:
+                        col.count("fix_decisions_at_saturated_posterior")
+                        if thr == 1.0:
+                            col.count("fix_decisions_posterior_equals_threshold_exactly")
+                        fixed_allele[j] = int(sat)
+                        continue
                     if abs(hp[a] - thr) <= 1e-9:
                         ambiguous = True
                     if hp[a] >= thr:
